@@ -131,6 +131,10 @@ pub struct Doc {
     /// the info string)
     #[serde(default)]
     pub fence_trailing_space: bool,
+    /// the file really lives here (relative to the document root); the directory part of `path`
+    /// is then a symbolic link to the directory part of this
+    #[serde(default)]
+    pub stored_at: Option<String>,
 }
 
 fn yes() -> bool {
@@ -171,6 +175,9 @@ pub struct Cli {
     /// name documents (and -P/-A) relative to the directory scrut is started in
     #[serde(default)]
     pub relative_paths: bool,
+    /// `--debug`: scrut writes log lines all the time
+    #[serde(default)]
+    pub debug: bool,
 }
 
 #[derive(Clone, Debug, PartialEq, Eq, Serialize, Deserialize)]
@@ -299,6 +306,8 @@ pub struct Written {
     pub hangs: bool,
     pub sleep_ns: u64,
     pub has_bg_hold: bool,
+    /// the command closes its own stdout or stderr (`exec >&-`)
+    pub closes_streams: bool,
 }
 
 pub fn written(ops: &[Op]) -> Written {
@@ -350,7 +359,10 @@ pub fn written(ops: &[Op]) -> Written {
                 w.hangs = true;
                 return w;
             }
-            Op::CloseFd { fd } => closed[if *fd == 2 { 1 } else { 0 }] = true,
+            Op::CloseFd { fd } => {
+                closed[if *fd == 2 { 1 } else { 0 }] = true;
+                w.closes_streams = true;
+            }
             Op::Bg { hold, .. } => {
                 if *hold {
                     w.has_bg_hold = true
